@@ -20,44 +20,12 @@ from __future__ import annotations
 
 import ast
 
-from ..astx import attr_writes, call_name, calls, walk_local
+from ..astx import attr_writes, call_name, calls, inline_locals, walk_local
 from ..cfg import CFG
 from ..loader import NOFOLD, AnalysisError, Repo
 from ..report import Check
 
 M = "xknx.secure.keyring"
-
-
-def inline_locals(fn: ast.AST, e: ast.AST, keep_calls: tuple = (), depth: int = 6) -> ast.AST:
-    """e with every local that has exactly one binding (a plain assignment) replaced by its right-hand side —
-    comparison of expressions up to naming and statement splitting."""
-    import copy
-    stores: dict[str, list] = {}
-    bare = {id(n.target) for n in walk_local(fn) if isinstance(n, ast.AnnAssign) and n.value is None}  # `x: T` binds nothing
-    for n in walk_local(fn):
-        if isinstance(n, ast.Name) and isinstance(n.ctx, ast.Store) and id(n) not in bare:
-            stores.setdefault(n.id, []).append(n)
-    defs: dict[str, ast.AST] = {}
-    for n in walk_local(fn):
-        if isinstance(n, (ast.Assign, ast.AnnAssign)) and n.value is not None:
-            ts = n.targets if isinstance(n, ast.Assign) else [n.target]
-            if len(ts) == 1 and isinstance(ts[0], ast.Name) and len(stores.get(ts[0].id, [])) == 1:
-                if isinstance(n.value, ast.Call) and call_name(n.value) in keep_calls:
-                    continue
-                defs[ts[0].id] = n.value
-
-    class T(ast.NodeTransformer):
-        def visit_Name(self, node: ast.Name):
-            if isinstance(node.ctx, ast.Load) and node.id in defs:
-                return copy.deepcopy(defs[node.id])
-            return node
-    out = copy.deepcopy(e)
-    for _ in range(depth):
-        new = T().visit(out) if not (isinstance(out, ast.Name) and out.id in defs) else copy.deepcopy(defs[out.id])
-        if ast.dump(new) == ast.dump(out):
-            break
-        out = new
-    return ast.fix_missing_locations(out)
 
 
 class HandlerEval:
